@@ -178,7 +178,11 @@ func (ex *Exec) verifCall(fn *ssa.Function, args []Value, fr *Frame) Value {
 		name := ex.argName(args[0])
 		n := ex.concInt(args[1].(*Term), "verifChoice n")
 		v := ex.freshVar(name, 64)
-		ex.addPC(tb.Cmp(OpUlt, v, ex.i64(int64(n))))
+		rng := tb.Cmp(OpUlt, v, ex.i64(int64(n)))
+		if ex.inThread() {
+			ex.tmEvent(&Event{Kind: "assume", Cond: rng})
+		}
+		ex.addPC(rng)
 		return ex.i64(int64(ex.concInt(v, "verifChoice "+name)))
 	case "verifString", "verifBytes":
 		// arbitrary bytes, length 0..max; the length is forked so it is concrete on each path
@@ -224,6 +228,15 @@ func (ex *Exec) verifCall(fn *ssa.Function, args []Value, fr *Frame) Value {
 		s.Arr.UF = uf
 		return s
 	case "verifAssume":
+		if ex.inThread() {
+			c := args[0].(*Term)
+			ex.tmEvent(&Event{Kind: "assume", Cond: c})
+			if c.IsFalse() {
+				panic(pathEnd{"assume-false"})
+			}
+			ex.addPC(c)
+			return nil
+		}
 		c := args[0].(*Term)
 		if c.IsFalse() {
 			panic(pathEnd{"assume-false"})
@@ -234,6 +247,11 @@ func (ex *Exec) verifCall(fn *ssa.Function, args []Value, fr *Frame) Value {
 		}
 		return nil
 	case "verifAssert":
+		if ex.inThread() {
+			// decided on the transition system, not path by path
+			ex.tmEvent(&Event{Kind: "assert", Name: ex.argName(args[0]), Cond: args[1].(*Term), Pos: ex.curPos})
+			return nil
+		}
 		ex.doAssert(ex.argName(args[0]), args[1].(*Term), "", nil)
 		return nil
 	case "verifAssertKF":
@@ -241,7 +259,48 @@ func (ex *Exec) verifCall(fn *ssa.Function, args []Value, fr *Frame) Value {
 		// predicate are attributed to the named known finding; any other violation is new.
 		ex.doAssert(ex.argName(args[0]), args[1].(*Term), ex.argName(args[2]), args[3].(*Term))
 		return nil
+	case "verifSeqBound":
+		bmcMaxSeq = ex.concInt(args[0].(*Term), "verifSeqBound")
+		return nil
+	case "verifGo":
+		// verifGo(name, body): registers a harness thread (BMC systems)
+		ex.bmcThreads = append(ex.bmcThreads, bmcThread{name: ex.argName(args[0]), body: args[1].(*FuncV)})
+		return nil
+	case "verifBMC":
+		// end of the setup phase: run the selected thread's body in thread mode
+		if ex.tm == nil {
+			panic(unsupported("verifBMC outside a BMC run"))
+		}
+		if ex.tm.tid >= len(ex.bmcThreads) {
+			panic(pathEnd{"no-such-thread"})
+		}
+		if ex.decIdx > 0 {
+			panic(unsupported("symbolic branching in the setup phase of a BMC harness"))
+		}
+		ex.tm.setupPC = append([]*Term{}, ex.pc...)
+		th := ex.bmcThreads[ex.tm.tid]
+		ex.tm.name = th.name
+		ex.tm.setupObjs = ex.nextObj
+		ex.tm.active = true
+		ex.invoke(th.body, nil, fr)
+		ex.tm.active = false
+		panic(pathEnd{"thread-done"})
+	case "verifAtomic":
+		if ex.inThread() {
+			ex.tmEvent(&Event{Kind: "atomic-begin", Name: "verifAtomic"})
+			ex.tm.atomic++
+			ex.invoke(args[0].(*FuncV), nil, fr)
+			ex.tm.atomic--
+			ex.tmEvent(&Event{Kind: "atomic-end", Name: "verifAtomic"})
+			return nil
+		}
+		ex.invoke(args[0].(*FuncV), nil, fr)
+		return nil
 	case "verifReach":
+		if ex.inThread() {
+			ex.tmEvent(&Event{Kind: "reach", Name: ex.argName(args[0])})
+			return nil
+		}
 		ex.settle()
 		ex.res.Reached = append(ex.res.Reached, ex.argName(args[0]))
 		return nil
@@ -456,6 +515,10 @@ func (ex *Exec) lockState(p *Pointer) map[string]int {
 
 func (ex *Exec) lockOp(recv Value, op string) Value {
 	p := recv.(*Pointer)
+	if ex.inThread() {
+		ex.tmLock(p, op)
+		return nil
+	}
 	st := ex.lockState(p)
 	ex.callLog = append(ex.callLog, op)
 	switch op {
